@@ -7,28 +7,36 @@ From Spg.Base Require Import Prelude Utf8 Bytes Multiset.
 From Spg.Model Require Import Tables Rand GenM CharSets CharGen Token WordList WordGen.
 From Spg.Proofs Require Import CountProofs GenProofs CharGenProofs ProdProofs WordProdProofs WordEntropyProofs WordFinalProofs BuiltinProofs.
 From Spg.Gen Require Source Lists.
-From Coq Require Import String Ascii QArith.
+From Coq Require Import String Ascii QArith Permutation.
 Close Scope N_scope. Close Scope Q_scope. Open Scope nat_scope.
 Open Scope string_scope.
 
+(** The declarations the translator reads (constants, the flag table, the scheme constants) are compared as sets with
+    multiplicity: the order of a const block or of the entries of a map literal carries no meaning. *)
+Definition str_eq x y (E : String.eqb x y = true) : x = y := proj1 (String.eqb_eq x y) E.
+Definition n_eq x y (E : N.eqb x y = true) : x = y := proj1 (N.eqb_eq x y) E.
+Definition bytes_eq := list_eqb_eq N.eqb n_eq.
+
 (** ---- character classes ---- *)
-Theorem C16_class_strings : Source.src_consts =
+Theorem C16_class_strings : Permutation Source.src_consts
   [("ctUpper", "ABCDEFGHIJKLMNOPQRSTUVWXYZ"); ("ctLower", "abcdefghijklmnopqrstuvwxyz"); ("ctDigits", "0123456789");
    ("ctAmbiguous", "0O1Il5S"); ("ctSymbols", "!@.-_*")].
-Proof. vm_compute. reflexivity. Qed.
-Theorem C16_class_flags : Source.src_flags =
+Proof. apply (same_multiset_perm _ (pair_eqb_eq String.eqb String.eqb str_eq str_eq)). vm_compute. reflexivity. Qed.
+Theorem C16_class_flags : Permutation Source.src_flags
   [("Uppers", 1%N); ("Lowers", 2%N); ("Digits", 4%N); ("Symbols", 8%N); ("Ambiguous", 16%N); ("None", 0%N);
    ("Letters", N.lor 1 2); ("All", N.lor (N.lor (N.lor 1 2) 4) 8)].
-Proof. vm_compute. reflexivity. Qed.
+Proof. apply (same_multiset_perm _ (pair_eqb_eq String.eqb N.eqb str_eq n_eq)). vm_compute. reflexivity. Qed.
 (** the flag -> characters table: exactly the five classes *)
-Theorem C16_flag_table : Source.src_flag_table =
+Theorem C16_flag_table : Permutation Source.src_flag_table
   [(1%N, "ABCDEFGHIJKLMNOPQRSTUVWXYZ"); (2%N, "abcdefghijklmnopqrstuvwxyz"); (4%N, "0123456789"); (8%N, "!@.-_*"); (16%N, "0O1Il5S")].
-Proof. vm_compute. reflexivity. Qed.
+Proof. apply (same_multiset_perm _ (pair_eqb_eq N.eqb String.eqb n_eq str_eq)). vm_compute. reflexivity. Qed.
 (** the model uses these very constants *)
 Theorem C16_model_classes :
-  map (fun p => (fst p, bos (snd p))) Source.src_flag_table = flag_table /\
-  [Uppers; Lowers; Digits; Symbols; Ambiguous; FNone; Letters; FAll] = map snd Source.src_flags.
-Proof. vm_compute. split; reflexivity. Qed.
+  Permutation (map (fun p => (fst p, bos (snd p))) Source.src_flag_table) flag_table /\
+  Permutation [Uppers; Lowers; Digits; Symbols; Ambiguous; FNone; Letters; FAll] (map snd Source.src_flags).
+Proof.
+  split; [apply (same_multiset_perm _ (pair_eqb_eq N.eqb (list_eqb N.eqb) n_eq bytes_eq))|apply (same_multiset_perm N.eqb n_eq)]; vm_compute; reflexivity.
+Qed.
 
 (** ---- constructor defaults and the retry budget ---- *)
 Theorem C16_new_char_recipe : Source.src_new_char_recipe =
@@ -40,11 +48,15 @@ Proof. vm_compute. reflexivity. Qed.
 Theorem C16_budget : Source.src_max_trials = 200%Z /\ Source.src_max_fail_rate = (1%Z, 1000000000%Z) /\
   default_budget = mkBudget Source.src_max_trials (fst Source.src_max_fail_rate) (snd Source.src_max_fail_rate).
 Proof. vm_compute. repeat split; reflexivity. Qed.
-Theorem C16_cap_schemes : Source.src_string_consts =
+Theorem C16_cap_schemes : Permutation Source.src_string_consts
   [("CapScheme", "CSNone", "none"); ("CapScheme", "CSFirst", "first"); ("CapScheme", "CSAll", "all");
    ("CapScheme", "CSRandom", "random"); ("CapScheme", "CSOne", "one")] /\
-  map (fun p => cap_of_string (bos (snd p))) Source.src_string_consts = [CapNone; CapFirst; CapAll; CapRandom; CapOne].
-Proof. vm_compute. split; reflexivity. Qed.
+  forallb (fun p => match cap_of_string (bos (snd p)), snd (fst p) with
+                    | CapNone, "CSNone" | CapFirst, "CSFirst" | CapAll, "CSAll" | CapRandom, "CSRandom" | CapOne, "CSOne" => true
+                    | _, _ => false end) Source.src_string_consts = true.
+Proof.
+  split; [apply (same_multiset_perm _ (pair_eqb_eq _ String.eqb (pair_eqb_eq String.eqb String.eqb str_eq str_eq) str_eq))|]; vm_compute; reflexivity.
+Qed.
 
 (** ---- separator presets ---- *)
 (** the seven presets as the source declares them are the model's presets *)
